@@ -261,7 +261,7 @@ class BaseLoadedMessage(LoadedMessageInterface):
         content_id = parsed.content_id
         content_desc = parsed.content_description
         content_encoding = parsed.content_transfer_encoding
-        if maintype == 'message' and subtype == 'rfc822':
+        if maintype == 'message' and subtype == 'rfc822' and msg.body.nested:
             sub_msg = msg.body.nested[0]
             sub_env_struct = cls._get_envelope_structure(sub_msg)
             sub_body_struct = cls._get_body_structure(sub_msg)
@@ -270,7 +270,10 @@ class BaseLoadedMessage(LoadedMessageInterface):
                 params, disposition, language, location, content_id,
                 content_desc, content_encoding, None, size, lines,
                 sub_env_struct, sub_body_struct)
-        elif maintype == 'text':
+        elif maintype == 'message' and subtype == 'rfc822':
+            # nested too deep to have been parsed: an opaque part
+            maintype, subtype = 'application', 'octet-stream'
+        if maintype == 'text':
             size, lines = cls._get_size_with_lines(msg)
             return TextBodyStructure(
                 subtype, params, disposition, language, location,
